@@ -14,6 +14,7 @@ import (
 	"errors"
 	"fmt"
 	"net"
+	"net/url"
 	"strings"
 	"time"
 
@@ -72,6 +73,7 @@ const (
 	evFFail
 	evTOK
 	evIgn
+	evScript // one probe whose two attempts answer DIFFERENTLY (event.scr indexes probeScripts)
 	evBegin
 	evEnd
 	evAdv
@@ -83,7 +85,110 @@ type event struct {
 	node int
 	typ  int
 	k    int // repeat count; for evReload: the fixed answer of every fastrand.Intn during the reload
+	scr  int // evScript: index into probeScripts
 }
+
+// ---- a probe is a sequence of attempts ---------------------------------------------------------------------
+//
+// The real probe retries once after a genuine error. What each attempt answers is the environment's choice, so the
+// alphabet of ONE probe is the set of attempt sequences below (every first answer that lets the probe go on x every
+// second answer, plus the single-attempt answers the plain probeok/probefail/ignorable events do not produce).
+// The verdict of a probe is read from the statement, attempt by attempt: a success makes it a successful probe; an
+// attempt ended by cancellation/teardown makes it a probe that "never counts" (nothing may change, whatever failed
+// before it); "not performed" (no applicable address) is no probe at all; a probe whose every attempt failed
+// genuinely - a refused/reset connection or the probe's own timeout - is ONE failed probe.
+
+type attKind int
+
+const (
+	attOK      attKind = iota // answers after 40ms
+	attFail                   // genuine error (refused / handshake failure)
+	attTimeout                // genuine error: the attempt's own deadline expired (wrapped context.DeadlineExceeded)
+	attSkip                   // (false, nil): no applicable address, nothing was probed
+	attCancel                 // bare context.Canceled: dialer context cancelled (reload cut-over, shutdown, Close)
+	attWCancel                // the same, wrapped the way net/http hands it back (*url.Error)
+)
+
+var attNames = [...]string{"ok", "fail", "timeout", "skip", "cancel", "wrappedcancel"}
+
+var (
+	errAttTimeout = &url.Error{Op: "Get", URL: "http://verif.invalid/", Err: context.DeadlineExceeded}
+	errAttWCancel = &url.Error{Op: "Get", URL: "http://verif.invalid/", Err: context.Canceled}
+)
+
+func (a attKind) answer() dialer.VerifAttempt {
+	switch a {
+	case attOK:
+		return dialer.VerifAttempt{Latency: probeLatency, OK: true}
+	case attFail:
+		return dialer.VerifAttempt{Err: dialer.VerifErrProbe}
+	case attTimeout:
+		return dialer.VerifAttempt{Err: errAttTimeout}
+	case attCancel:
+		return dialer.VerifAttempt{Err: context.Canceled}
+	case attWCancel:
+		return dialer.VerifAttempt{Err: errAttWCancel}
+	}
+	return dialer.VerifAttempt{} // attSkip
+}
+
+type probeVerdict int
+
+const (
+	pvSuccess probeVerdict = iota
+	pvFailed
+	pvNeverCounts
+	pvNotPerformed
+)
+
+type probeScript []attKind
+
+func (s probeScript) verdict() probeVerdict {
+	for _, a := range s {
+		switch a {
+		case attOK:
+			return pvSuccess
+		case attSkip:
+			return pvNotPerformed
+		case attCancel, attWCancel:
+			return pvNeverCounts
+		}
+	}
+	return pvFailed
+}
+
+func (s probeScript) name() string {
+	n := make([]string, len(s))
+	for i, a := range s {
+		n[i] = attNames[a]
+	}
+	return "attempts:" + strings.Join(n, ">")
+}
+
+func (s probeScript) answers() (out []dialer.VerifAttempt, virtual time.Duration) {
+	for _, a := range s {
+		v := a.answer()
+		out = append(out, v)
+		virtual += v.Latency
+	}
+	return
+}
+
+// probeScripts: {fail,timeout} x {ok,fail,timeout,skip,cancel,wrappedcancel} minus fail>fail (= probefail) and the
+// two x>skip mixes (the statement does not say whether a failed attempt followed by "nothing to probe" is a failed
+// probe), plus the single answers skip and wrappedcancel. Simplest first.
+var probeScripts = func() (out []probeScript) {
+	out = append(out, probeScript{attSkip}, probeScript{attWCancel})
+	for _, first := range []attKind{attFail, attTimeout} {
+		for _, second := range []attKind{attOK, attFail, attTimeout, attCancel, attWCancel} {
+			if first == attFail && second == attFail {
+				continue
+			}
+			out = append(out, probeScript{first, second})
+		}
+	}
+	return
+}()
 
 // latency of a probe-ok event: k<=1 is the default 40ms, otherwise k milliseconds (a slow sample: far enough from the
 // default that the 1s recovery penalty and any tolerance are exceeded in both directions)
@@ -133,6 +238,14 @@ func (c *cfg) addNodeEvents(node int, t int, kinds map[evKind][]int) {
 			}
 			c.evNames = append(c.evNames, n)
 		}
+	}
+}
+
+// addScriptEvents: every probe script of the attempt alphabet as one event on (node, t).
+func (c *cfg) addScriptEvents(node, t int) {
+	for si, s := range probeScripts {
+		c.events = append(c.events, event{kind: evScript, node: node, typ: t, k: 1, scr: si})
+		c.evNames = append(c.evNames, fmt.Sprintf("%c.%s.%s", 'a'+node, typeShort[t], s.name()))
 	}
 }
 
@@ -505,12 +618,12 @@ func (x *runner) exec(e event) {
 	pre := w.aliveAll()
 	preBits := append([][6]int(nil), w.bits...)
 	var preDump string
-	if e.kind == evIgn && x.judge {
+	if (e.kind == evIgn || e.kind == evScript && probeScripts[e.scr].verdict() == pvNeverCounts) && x.judge {
 		preDump = w.dump(dialer.VerifNowNano(), r)
 	}
 	var d *dialer.Dialer
 	var nt *dialer.NetworkType
-	if e.kind <= evIgn {
+	if e.kind <= evScript {
 		d, nt = w.gen.nodes[e.node], w.types[e.typ]
 	}
 	k := e.k
@@ -577,6 +690,34 @@ func (x *runner) exec(e event) {
 		if x.judge {
 			if post := w.dump(dialer.VerifNowNano(), r); post != preDump {
 				x.viol("ignorable", fmt.Sprintf("%s: a cancellation/teardown error changed the health state: before %s after %s", what, preDump, post))
+			}
+		}
+	case evScript:
+		// one probe, attempt by attempt; the verdict comes from the statement (probeScript.verdict), the number of
+		// attempts the real code makes is its own business
+		s := probeScripts[e.scr]
+		now := dialer.VerifNowNano()
+		answers, _ := s.answers()
+		made := d.VerifProbeScript(nt, answers)
+		if made >= len(s) {
+			x.count("probe_scripts_played_to_the_end")
+		}
+		switch s.verdict() {
+		case pvSuccess:
+			exp := x.blankExp()
+			exp[e.node][e.typ] = expAlive
+			x.success(e.node, e.typ)
+			x.settle(what, exp, pre)
+		case pvFailed:
+			x.failure(what, e.node, e.typ, false, pre, now)
+		case pvNotPerformed:
+			x.settle(what+" (nothing was probed)", x.blankExp(), pre)
+		case pvNeverCounts:
+			x.settle(what+" (probe cut short by cancellation/teardown: never counts)", x.blankExp(), pre)
+			if x.judge {
+				if post := w.dump(dialer.VerifNowNano(), r); post != preDump {
+					x.viol("ignorable", fmt.Sprintf("%s: a probe ended by cancellation/teardown changed the health state: before %s after %s", what, preDump, post))
+				}
 			}
 		}
 	case evBegin:
@@ -787,6 +928,9 @@ func makeScenario(c *cfg) *dialerh.Scenario {
 				horizon += e.latency()
 			case evAdv:
 				horizon += advanceStep
+			case evScript:
+				_, v := probeScripts[e.scr].answers()
+				horizon += v
 			}
 		}
 		body := func() {
@@ -882,6 +1026,16 @@ func scenarios(thorough bool) []*dialerh.Scenario {
 		c.addNodeEvents(0, t, map[evKind][]int{evPOK: nil, evPFail: {thrProbe(t)}, evTFail: {thrTraffic(t)}, evFFail: nil})
 		c.addGlobal(evBegin, evEnd, evAdv)
 		out = append(out, makeScenario(c))
+		// att: one probe = a sequence of attempts; every attempt script against the plain probe events (failure runs
+		// one short of the threshold, so a script that wrongly counts kills) and a forced death (revival on the retry)
+		c = &cfg{name: "att/" + typeShort[t], addrs: []string{"addr-x"}, groups: oneNode, depth: pick(4, 5)}
+		pk := []int{1}
+		if thrProbe(t) > 1 {
+			pk = []int{1, thrProbe(t) - 1}
+		}
+		c.addNodeEvents(0, t, map[evKind][]int{evPOK: nil, evPFail: pk, evFFail: nil})
+		c.addScriptEvents(0, t)
+		out = append(out, makeScenario(c))
 		// rel: snapshot -> restore -> floor against deaths and revivals
 		c = &cfg{name: "rel/" + typeShort[t], addrs: []string{"addr-x"}, groups: oneNode, depth: deep}
 		c.addNodeEvents(0, t, map[evKind][]int{evPOK: {1, slowMs}, evPFail: {thrProbe(t)}, evFFail: nil, evTOK: nil})
@@ -943,7 +1097,7 @@ func scenarios(thorough bool) []*dialerh.Scenario {
 func main() {
 	dialerh.Main(&dialerh.Plan{
 		ID: "C16",
-		Rule: "states = distinct FULL dumps (every collection of every node: alive flag, both failure counters, latency window, moving average, last probe; recovery levels and pending confirmation timers as deadline-minus-now; every AliveDialerSet of every group: array order, index map, cached best; connectivity bits last written; suppression counter and remaining quiesce window; per-address failure tracker; the reference's interval counters) reached by BFS over event histories on the real objects, one history = fresh objects + replay inside ONE vsched.Run on the virtual clock; transitions = (state,event) executions, each judged call by call against the reference from the statement; alphabet per scenario: probe ok / probe fail xk / transactional fail xk / traffic fail xk (k hits each threshold at, just below, just above: 1,2,3 | 1,9,10 | 1,49,50) / forced fail / traffic ok / cancellation+teardown errors / suppression begin,end / advance 21s (past the 20s quiesce window) / reload (real ControlPlane.InheritDialerHealthFrom into a fresh generation, for both outcomes of the random fallback pick); distinct_nontrivial = distinct (alive matrix, connectivity bits, open suppression scopes, last event) observations summed over scenarios",
+		Rule: "states = distinct FULL dumps (every collection of every node: alive flag, both failure counters, latency window, moving average, last probe; recovery levels and pending confirmation timers as deadline-minus-now; every AliveDialerSet of every group: array order, index map, cached best; connectivity bits last written; suppression counter and remaining quiesce window; per-address failure tracker; the reference's interval counters) reached by BFS over event histories on the real objects, one history = fresh objects + replay inside ONE vsched.Run on the virtual clock; transitions = (state,event) executions, each judged call by call against the reference from the statement; alphabet per scenario: probe ok / probe fail xk / transactional fail xk / traffic fail xk (k hits each threshold at, just below, just above: 1,2,3 | 1,9,10 | 1,49,50) / forced fail / traffic ok / cancellation+teardown errors / one probe as a sequence of per-attempt answers ({fail,timeout} x {ok,fail,timeout,cancel,wrapped cancel}, skip, wrapped cancel; verdict per the statement: success on any attempt = successful probe, cancellation on any attempt = never counts, all attempts failed = ONE failed probe) / suppression begin,end / advance 21s (past the 20s quiesce window) / reload (real ControlPlane.InheritDialerHealthFrom into a fresh generation, for both outcomes of the random fallback pick); distinct_nontrivial = distinct (alive matrix, connectivity bits, open suppression scopes, last event) observations summed over scenarios",
 		Scenarios:   scenarios,
 		BudgetQuick: 45 * time.Second, BudgetThorough: 17 * time.Minute,
 		Assumptions: []string{
